@@ -55,9 +55,9 @@ impl Monitor for C08 {
             let stmt = if rng.chance(1, 2) { "SELECT DISTINCT r FROM t" } else { "SELECT DISTINCT r , ( g * 0 ) FROM t" };
             return json!({"tables": "CREATE TABLE t ( { . r } => r REAL , { . g } => g INT ) ;", "stmt": stmt, "lines": lines, "joined": null, "shape": "LargeSet"});
         }
-        let (mut case, t, mut sel, shape) = gen_base(rng, &BaseCfg { shapes: &[Shape::Plain, Shape::Plain, Shape::Join, Shape::Aggregate, Shape::Aggregate], allow_limit: false, allow_having: true, agg_distinct: false, order_insensitive_only: false, exact_data: true, min_lines: 3, max_lines: 40, not_null_column: false, big_rate: 300, big_lines: 1500 });
+        let (mut case, t, mut sel, shape) = gen_base(rng, &BaseCfg { shapes: &[Shape::Plain, Shape::Plain, Shape::Join, Shape::Aggregate, Shape::Aggregate, Shape::JoinAggregate], allow_limit: false, allow_having: true, agg_distinct: false, order_insensitive_only: false, exact_data: true, min_lines: 3, max_lines: 40, not_null_column: false, big_rate: 300, big_lines: 1500 });
         match shape {
-            Shape::Aggregate => {
+            Shape::Aggregate | Shape::JoinAggregate => {
                 // result rows repeat when keys are not shown
                 if rng.chance(2, 3) { let keys = sel.group_by.clone().unwrap_or_default(); sel.projs.retain(|(e, _)| !keys.contains(e)); if sel.projs.is_empty() { sel.projs.push((E::Agg("count".into(), false, vec![E::Star]), None)); } }
                 if rng.chance(1, 2) { sel.projs.truncate(2); }
